@@ -157,3 +157,63 @@ Proof.
     rewrite O. cbn [r_out].
     destruct He as [-> | ->]; cbn [data_of app]; rewrite <- app_assoc; reflexivity.
 Qed.
+
+(* gentle interruptions with lulls: as [gentle], and in addition the source may take any time (also far longer
+   than the tolerance) to produce a chunk, as long as it reports no end-of-file or timeout meanwhile.  Every
+   interruption is judged by its own clock, started at ITS first end-of-file: time that passed while data was
+   flowing, and earlier interruptions, do not count. *)
+Inductive gentle_lull : list rstep -> Prop :=
+| gl_nil : gentle_lull []
+| gl_data bs rest : gentle_lull rest -> gentle_lull (RData bs :: rest)
+| gl_lull ms bs rest : bs <> [] -> gentle_lull rest -> gentle_lull (RSleep ms :: RData bs :: rest)
+| gl_one e bs rest : (e = REof \/ e = RTimeout) -> bs <> [] -> gentle_lull rest -> gentle_lull (e :: RData bs :: rest)
+| gl_two e1 e2 bs rest : (e1 = REof \/ e1 = RTimeout) -> (e2 = REof \/ e2 = RTimeout) -> bs <> [] ->
+    gentle_lull rest -> gentle_lull (e1 :: e2 :: RData bs :: rest).
+
+Lemma gentle_lull_resumes tol wait : 0 < tol -> wait <= tol -> forall script, gentle_lull script ->
+  forall s, r_first s = None ->
+  exists s', run_script tol wait script s = (s', StopNone, []) /\ r_out s' = r_out s ++ data_of script /\
+             r_first s' = None.
+Proof.
+  intros Htol Hwait script G.
+  induction G as [|bs rest G IH|ms bs rest Hbs G IH|e bs rest He Hbs G IH|e1 e2 bs rest H1 H2 Hbs G IH]; intros s Hf.
+  - exists s. cbn. rewrite app_nil_r. repeat split; assumption.
+  - cbn [run_script data_of].
+    destruct (IH {| r_first := match bs with [] => r_first s | _ => None end; r_now := r_now s; r_out := r_out s ++ bs |})
+      as (s' & R & O & F).
+    { cbn. destruct bs; [exact Hf|reflexivity]. }
+    exists s'. split; [exact R|]. split; [rewrite O; cbn; rewrite <- app_assoc; reflexivity|exact F].
+  - cbn [run_script data_of].
+    destruct (IH {| r_first := match bs with [] => r_first s | _ => None end; r_now := r_now s + ms; r_out := r_out s ++ bs |})
+      as (s' & R & O & F).
+    { cbn. destruct bs; [congruence|reflexivity]. }
+    exists s'. split; [exact R|]. split; [rewrite O; cbn; rewrite <- app_assoc; reflexivity|exact F].
+  - assert (E : on_eof tol wait s = Some {| r_first := Some (r_now s); r_now := r_now s + wait; r_out := r_out s |}).
+    { unfold on_eof. destruct (N.eqb_spec tol 0); [lia|]. rewrite Hf. reflexivity. }
+    assert (R1 : forall k, run_script tol wait (e :: k) s =
+                 run_script tol wait k {| r_first := Some (r_now s); r_now := r_now s + wait; r_out := r_out s |}).
+    { intros k. destruct He as [-> | ->]; cbn [run_script]; rewrite E; reflexivity. }
+    rewrite R1. cbn [run_script data_of].
+    destruct (IH {| r_first := match bs with [] => Some (r_now s) | _ => None end; r_now := r_now s + wait; r_out := r_out s ++ bs |})
+      as (s' & R & O & F).
+    { cbn. destruct bs; [congruence|reflexivity]. }
+    exists s'. split; [exact R|]. split; [|exact F].
+    rewrite O. cbn [r_out].
+    destruct He as [-> | ->]; cbn [data_of app]; rewrite <- app_assoc; reflexivity.
+  - set (s1 := {| r_first := Some (r_now s); r_now := r_now s + wait; r_out := r_out s |}).
+    set (s2 := {| r_first := Some (r_now s); r_now := r_now s + wait + tol; r_out := r_out s |}).
+    assert (E1 : on_eof tol wait s = Some s1).
+    { unfold on_eof. destruct (N.eqb_spec tol 0); [lia|]. rewrite Hf. reflexivity. }
+    assert (E2 : on_eof tol wait s1 = Some s2).
+    { unfold on_eof, s1. cbn [r_first r_now r_out]. destruct (N.eqb_spec tol 0); [lia|].
+      destruct (N.ltb_spec tol (r_now s + wait - r_now s)); [lia|]. reflexivity. }
+    assert (R1 : forall k, run_script tol wait (e1 :: e2 :: k) s = run_script tol wait k s2).
+    { intros k. destruct H1 as [-> | ->], H2 as [-> | ->]; cbn [run_script]; rewrite E1, E2; reflexivity. }
+    rewrite R1. cbn [run_script].
+    destruct (IH {| r_first := match bs with [] => r_first s2 | _ => None end; r_now := r_now s2; r_out := r_out s2 ++ bs |})
+      as (s' & R & O & F).
+    { cbn. destruct bs; [congruence|reflexivity]. }
+    exists s'. split; [exact R|]. split; [|exact F].
+    rewrite O. cbn [r_out s2].
+    destruct H1 as [-> | ->], H2 as [-> | ->]; cbn [data_of]; rewrite <- app_assoc; reflexivity.
+Qed.
